@@ -179,7 +179,7 @@ Plan parse_plan(const std::string &text) {
             ir.kind = kv.str("kind", "nal"); ir.seed = kv.u64("seed", 1);
             p.inrep.push_back(ir);
         } else if (kv.op == "restart") {
-            p.restart.push_back(Plan::Restart{kv.u64("t"), kv.str("who", "talker") == "listener"});
+            p.restart.push_back(Plan::Restart{kv.u64("t"), kv.str("who", "talker") == "listener", kv.u64("flip", 0) != 0});
         } else if (kv.op == "stall") {
             p.stall.push_back(Stall{kv.u64("t"), (int)kv.u64("node"), kv.u64("dur")});
         }
@@ -202,6 +202,7 @@ struct RunState {
     std::vector<uint64_t> expected_src;                  // datagram id per expected frame
     // C18 bookkeeping
     bool quiet = false;
+    bool tscf_now = false;  // the control format the running talker was started with
     bool gave_up = false;  // the listener terminated after an injected standard-output error: a legitimate reaction to an I/O error
     uint64_t probes_recv = 0, probe_cargo = 0, effects_after_quiet = 0, damaged_recv = 0, recv_total = 0, handlers_done = 0;
     // soak runs: observable effects and datagrams received, sampled at the borders of an early and a late window of equal length
@@ -265,7 +266,8 @@ static std::string check_framing(const Plan &p, const std::vector<uint8_t> &d, s
     } else {
         return strf("subtype: 0x%02x", subtype);
     }
-    if ((subtype == wire::SUBTYPE_TSCF) != p.tscf) return strf("subtype: 0x%02x in %s mode", subtype, p.tscf ? "tscf" : "ntscf");
+    bool tscf_now = g_rs ? g_rs->tscf_now : p.tscf;  // (a restarted talker may have been given the other format)
+    if ((subtype == wire::SUBTYPE_TSCF) != tscf_now) return strf("subtype: 0x%02x in %s mode", subtype, tscf_now ? "tscf" : "ntscf");
     size_t follows = d.size() - o - hdr;
     if (announced != follows) return strf("length-field: header announces %zu bytes, %zu follow", announced, follows);
     size_t pos = o + hdr, sum = 0, msgs = 0;
@@ -525,6 +527,7 @@ void exec_plan(const std::string &text, bool verbose) {
     static RunState rs;
     g_rs = &rs;
     rs.plan = parse_plan(text);
+    rs.tscf_now = rs.plan.tscf;
     Plan &p = rs.plan;
     World *wp = new World(p.rseed);
     World &w = *wp;
@@ -758,8 +761,8 @@ void exec_plan(const std::string &text, bool verbose) {
     // file-scope statics have never been touched - with the same command line; hence at most one restart per program and run.
     if (p.scen == "tunnel")
         for (auto &rst : p.restart) {
-            bool lis = rst.listener;
-            w.at(w.t_origin + rst.t, [&w, lis] {
+            bool lis = rst.listener, flip = rst.flip && !rst.listener;
+            w.at(w.t_origin + rst.t, [&w, lis, flip] {
                 RunState &rs = *g_rs;
                 if (lis ? rs.listener_restarts >= 1 : rs.talker_restarts >= 1) return;
                 int old = lis ? rs.listener : rs.talker;
@@ -781,6 +784,12 @@ void exec_plan(const std::string &text, bool verbose) {
                     w.count("fault.listener_restart");
                 } else {
                     rs.pending_cargo.clear();
+                    if (flip) {  // the same listener now meets the other control format: the formats may follow each other in any sequence
+                        auto it = std::find(rs.talker_argv.begin(), rs.talker_argv.end(), std::string("-t"));
+                        if (it != rs.talker_argv.end()) rs.talker_argv.erase(it); else rs.talker_argv.insert(rs.talker_argv.begin(), "-t");
+                        rs.tscf_now = !rs.tscf_now;
+                        w.count("fault.talker_restart_with_other_control_format");
+                    }
                     nn = rs.talker = w.add_node("talker2", "acf-can-talker", use_o0 ? O0_acf_can_talker_main : acf_can_talker_main, rs.talker_argv, false);
                     rs.talker_restarts++;
                     w.count("fault.talker_restart");
@@ -829,6 +838,9 @@ void exec_plan(const std::string &text, bool verbose) {
                 violation("frame-count:nothing-received", strf("the talker sent %llu datagrams, the listener received none although no loss, delay or stall was injected: "
                                                                "they were not addressed to where the listener listens", (unsigned long long)w.nodes[rs.talker].sent));
         }
+        if (w.counters.count("ev.dropped_by_reduced_receive_buffer"))
+            violation("frame-count:receive-buffer", strf("%llu datagrams were dropped at a socket whose receive buffer the program itself had reduced (SO_RCVBUF) although the system's default buffer "
+                                                         "would have held them", (unsigned long long)w.counters["ev.dropped_by_reduced_receive_buffer"]));
         if (w.counters.count("ev.can_frame_rejected_by_socket_filter"))
             violation("frame-count:filtered", strf("%llu data frames of the bus never reached the talker: its CAN socket carries a receive filter (CAN_RAW_FILTER) that does not match them",
                                                    (unsigned long long)w.counters["ev.can_frame_rejected_by_socket_filter"]));
